@@ -108,7 +108,7 @@ def run_demo(root):
 
 def cmd_verify(prop, run_suite=True, part='all'):
     m = load_meta(prop)
-    tmp = scratch(prop, patched=False)
+    tmp = scratch(prop, patched=False, with_tests=True)      # some demonstrations use tests/fakessh etc.
     rc0, out0 = run_demo(tmp)
     shutil.rmtree(tmp, ignore_errors=True)
     tmp = scratch(prop, with_tests=True)
